@@ -329,6 +329,30 @@ func (expr Expression) variablesUsed(acc map[string]struct{}) {
 	case ExpressionTypeTypeCast:
 		expr.TypeCast.Expression.variablesUsed(acc)
 		return
+	case ExpressionTypeCoalesce:
+		for _, arg := range expr.Coalesce.Arguments {
+			arg.variablesUsed(acc)
+		}
+		return
+	case ExpressionTypeTuple:
+		for _, arg := range expr.Tuple.Arguments {
+			arg.variablesUsed(acc)
+		}
+		return
+	case ExpressionTypeObjectFieldAccess:
+		expr.ObjectFieldAccess.Object.variablesUsed(acc)
+		return
+	case ExpressionTypeQueryExpression:
+		// Over-approximation: every variable mentioned anywhere in the subquery.
+		(&Transformers{
+			ExpressionTransformer: func(e Expression) Expression {
+				if e.ExpressionType == ExpressionTypeVariable {
+					acc[e.Variable.Name] = struct{}{}
+				}
+				return e
+			},
+		}).TransformNode(expr.QueryExpression.Source)
+		return
 	}
 
 	panic("unexhaustive expression type match")
